@@ -113,16 +113,19 @@ def low_weight_sweep(ctx):
                           {'code': repr(code), 'n_k_d': [n, k, d], 'operator': op})
 
 
+WHEN = {'optimised-mode': 'in optimised mode', 'logging-config': 'under that logging configuration'}
+
+
 def history_sweep(ctx, stage):
-    """callback for the history / interpreter-mode passes of lat_common: the low-weight sweep on the stabilizers a code
-    object publishes after that history, where they differ from the usual ones"""
+    """callback for the history / interpreter-mode / logging-configuration passes of lat_common: the low-weight sweep on the
+    stabilizers a code object publishes after that history / under that configuration, where they differ from the usual ones"""
     def on_difference(rep, nkd, S):
         n, k, d = (int(v) for v in nkd)
         op, ncand = low_weight_logical(n, d, S)
         ctx.count(('low-weight', stage, repr(rep)), True, 'low-weight-sweep/' + stage)
         if op is not None:
             ctx.violation(stage + '-low-weight-logical', 'the stabilizers published %s admit a non-trivial logical operator '
-                          'lighter than the advertised d' % stage.replace('-', ' '), dict(rep, n_k_d=[n, k, d], operator=op))
+                          'lighter than the advertised d' % WHEN.get(stage, stage.replace('-', ' ')), dict(rep, n_k_d=[n, k, d], operator=op))
     return on_difference
 
 
@@ -138,7 +141,10 @@ def run(ctx):
     fams = lat_common.run_families(ctx, 'check_c08', translator_families=['planar', 'toric', 'rotplanar', 'rottoric', 'color'])
     lat_common.stage(ctx, 'basic_codes', basic_codes)
     lat_common.stage(ctx, 'low_weight_sweep', low_weight_sweep)
-    lat_common.stage(ctx, 'optimised_mode', lat_common.optimised_mode, on_difference=history_sweep(ctx, 'optimised-mode'))
+    lat_common.stage(ctx, 'optimised_mode', lat_common.optimised_mode, on_difference=history_sweep(ctx, 'optimised-mode'),
+                     include_logging=False)
+    lat_common.stage(ctx, 'logging_configurations', lat_common.logging_configurations,
+                     on_difference=history_sweep(ctx, 'logging-config'))
     lat_common.stage(ctx, 'final_recheck', lat_common.final_recheck)
     ctx.extra['families'] = fams + ['basic']
 
